@@ -58,6 +58,7 @@ class Sim:
         self.rng = random.Random(seed)
         self.switch_prob = switch_prob
         self.now = 0
+        self.decoy_events = []
         self.events = []
         self.threads = []
         self.cur = None
@@ -90,8 +91,30 @@ class Sim:
             self.abort("event budget exhausted (livelock at virtual time %d us?)" % self.now)
         e = {"t": self.now, "th": self.cur.name if self.cur else "-", "k": kind}
         e.update(kw)
+        # events of a second, independent connection ("decoy": its threads, and other threads while they
+        # operate on it) are kept apart: the trace of the connection under test must not contain them
+        if self.cur is not None and (getattr(self.cur, "decoy", False) or getattr(self.cur, "decoy_depth", 0) > 0):
+            e["decoy"] = True
+            self.decoy_events.append(e)
+            return e
         self.events.append(e)
         return e
+
+    def decoy(self):
+        """context manager: the current thread operates on the decoy connection"""
+        sim = self
+
+        class _Ctx:
+            def __enter__(self_):
+                if sim.cur is not None:
+                    sim.cur.decoy_depth = getattr(sim.cur, "decoy_depth", 0) + 1
+
+            def __exit__(self_, *a):
+                if sim.cur is not None:
+                    sim.cur.decoy_depth = getattr(sim.cur, "decoy_depth", 0) - 1
+                return False
+
+        return _Ctx()
 
     # ------------------------------------------------------------------ scheduling core
     def _runnable(self):
@@ -563,8 +586,9 @@ class Device:
     """Scripted device.  respond(line:str, idx) -> list of reply lines (str) or bytes chunks.
     latency_us: delay between a write and its replies; per-reply extra via `gap_us`."""
 
-    def __init__(self, sim, respond=None, latency_us=20000, gap_us=1000, chunker=None):
+    def __init__(self, sim, respond=None, latency_us=20000, gap_us=1000, chunker=None, decoy=False):
         self.sim = sim
+        self.decoy = decoy
         self.respond = respond or (lambda line, idx: [])
         self.latency_us = latency_us
         self.gap_us = gap_us
@@ -578,7 +602,12 @@ class Device:
         self.rxlines = []  # every complete line emitted (str) with time and cause
         self.last_emit = 0
 
+    gen = 0
+
     def attach(self, port):
+        # a new session on the same device: replies still in flight to the previous port are dropped
+        if self.port is not None:
+            self.gen += 1
         self.port = port
 
     def on_write(self, data, idx):
@@ -604,8 +633,10 @@ class Device:
         t = max(int(t), self.sim.now)
         self.last_emit = max(self.last_emit, t)
 
+        gen = self.gen
+
         def fire():
-            if self.dead or self.port is None:
+            if self.dead or self.port is None or gen != self.gen:
                 return
             data = b
             if self.eof_after_bytes is not None:
@@ -617,7 +648,7 @@ class Device:
             self.n_bytes += len(data)
             if data:
                 self.port.rx.extend(data)
-                self.sim.events.append({"t": self.sim.now, "th": "device", "k": "DevEmit", "data": list(data), "cause": cause})
+                (self.sim.decoy_events if self.decoy else self.sim.events).append({"t": self.sim.now, "th": "device", "k": "DevEmit", "data": list(data), "cause": cause})
             if self.eof_after_bytes is not None and self.n_bytes >= self.eof_after_bytes:
                 self.fault("eof")
 
@@ -627,7 +658,7 @@ class Device:
         if self.dead:
             return
         self.dead = True
-        self.sim.events.append({"t": self.sim.now, "th": "device", "k": "DevFault", "kind": kind})
+        (self.sim.decoy_events if self.decoy else self.sim.events).append({"t": self.sim.now, "th": "device", "k": "DevFault", "kind": kind})
         if kind == "eof":
             self.port.eof = True
         else:
@@ -804,6 +835,9 @@ class Patched:
                 return _REAL["start"](pt)
             name = "reader" if isinstance(pt, serial.threaded.ReaderThread) else ("sender" if getattr(pt, "_target", None) is not None and getattr(pt._target, "__name__", "") == "_send_handler" else pt.name)
             st = sim.register_thread(pt, name)
+            if sim.cur is not None and (getattr(sim.cur, "decoy", False) or getattr(sim.cur, "decoy_depth", 0) > 0):
+                st.decoy = True
+                st.name = name + "~"
             orig_run = pt.run
             pt.run = lambda: sim._thread_main(st, orig_run)
             sim.yield_point()
@@ -863,7 +897,7 @@ class Patched:
 
         _orig_init = Base.__init__
 
-        def _init(self_, message_callback=None, disconnect_callback=None, communication_log_size=0):
+        def _init(self_, message_callback=None, disconnect_callback=None, communication_log_size=0, *more, **kwmore):
             cb = message_callback
             if cb is not None:
                 def wrapped(status, subunit, function, value):
@@ -880,7 +914,7 @@ class Patched:
                     sim.ev("DisconnectCb")
                     return dcb()
                 disconnect_callback = dwrapped
-            _orig_init(self_, message_callback, disconnect_callback, communication_log_size)
+            _orig_init(self_, message_callback, disconnect_callback, communication_log_size, *more, **kwmore)
             buf = object.__getattribute__(self_, "_communication_log_buffer")
             add0 = buf.add
 
@@ -901,10 +935,11 @@ class Patched:
 
         def conn_init2(self_, *a, **k):
             conn_init(self_, *a, **k)
-            ss = SimSet(self_._message_callbacks)
-            ss._sim = sim
-            ss._label = "message"
-            self_._message_callbacks = ss
+            if type(getattr(self_, "_message_callbacks", None)) is set:  # another container type is left alone
+                ss = SimSet(self_._message_callbacks)
+                ss._sim = sim
+                ss._label = "message"
+                object.__setattr__(self_, "_message_callbacks", ss)
 
         self._set(ynca.connection.YncaConnection, "__init__", conn_init2)
 
@@ -914,14 +949,30 @@ class Patched:
                 object.__setattr__(self_, name, value)
                 sim.ev("SetClosed")
                 return
+            if name == "_message_callbacks" and "_message_callbacks" in self_.__dict__ and sim.cur is not None and not sim.aborting:
+                # the container is REPLACED (copy-on-write style): a scheduling point, and the new one is instrumented too
+                sim.yield_point()
+                if type(value) is set:
+                    ss = SimSet(value)
+                    ss._sim = sim
+                    ss._label = "message"
+                    value = ss
+                sim.ev("SetReplace", set="message", items=sorted(str(_cb_label(x)) for x in (set.__iter__(value) if isinstance(value, set) else value)) if isinstance(value, (set, frozenset, list, tuple, dict)) else None)
             object.__setattr__(self_, name, value)
 
         self._set(ynca.connection.YncaConnection, "__setattr__", conn_setattr)
 
+        def conn_getattribute(self_, name):
+            if name == "_message_callbacks" and sim.cur is not None and not sim.aborting:
+                sim.yield_point()  # reading the container and using it are two steps for another thread to get between
+            return object.__getattribute__(self_, name)
+
+        self._set(ynca.connection.YncaConnection, "__getattribute__", conn_getattribute)
+
         SB = ynca.subunit.SubunitBase
 
         def sb_setattr(self_, name, value):
-            if name == "_update_callbacks" and not isinstance(value, SimSet):
+            if name == "_update_callbacks" and type(value) is set:
                 ss = SimSet(value)
                 ss._sim = sim
                 ss._label = "update:" + f"{getattr(self_, 'id', '?')}"
@@ -937,6 +988,8 @@ class Patched:
             object.__setattr__(self_, name, value)
 
         def sb_getattribute(self_, name):
+            if name == "_update_callbacks" and sim.cur is not None and not sim.aborting:
+                sim.yield_point()
             if name == "_initialized" and sim.cur is not None and not sim.aborting:
                 sim.yield_point()
                 v = object.__getattribute__(self_, name)
